@@ -61,12 +61,25 @@ def decode_function(E, fn):
         if isinstance(rt, StructTy): return [zero_of(x) for x in rt.els]
         return [zero_of(rt.el)] * rt.n
 
+    # strip trailing instruction metadata (", !dbg !N", ", !llvm.access.group !M", ...) once; remember the !dbg id
+    dbg_ids = {}
+    for lab in labels:
+        lst = fn.blocks[lab]
+        for k_, toks in enumerate(lst):
+            cut = None
+            for ti in range(len(toks) - 1):
+                if toks[ti] == ('sym', ',') and toks[ti + 1][0] == 'md' and not toks[ti + 1][1][1:].isdigit():
+                    cut = ti; break
+            if cut is not None:
+                for tj in range(cut, len(toks) - 1):
+                    if toks[tj] == ('md', '!dbg'): dbg_ids[(lab, k_)] = toks[tj + 1][1]; break
+                lst[k_] = toks[:cut]
     # first pass: collect phis per block
     phis = {}       # block idx -> list of (dst slot, {pred idx: (isreg, val)})
-    bodies = []
+    bodies = []; body_idxs = []
     for bi, lab in enumerate(labels):
-        body = []
-        for toks in fn.blocks[lab]:
+        body = []; body_idx = []
+        for k_, toks in enumerate(fn.blocks[lab]):
             if len(toks) > 2 and toks[1] == ('sym', '=') and toks[2] == ('kw', 'phi'):
                 p = P(toks, 3)
                 ty = m.parse_type(p)
@@ -79,8 +92,8 @@ def decode_function(E, fn):
                     if not p.accept('sym', ','): break
                 phis.setdefault(bi, []).append((slot(toks[0][1]), inc))
             else:
-                body.append(toks)
-        bodies.append(body)
+                body.append(toks); body_idx.append(k_)
+        bodies.append(body); body_idxs.append(body_idx)
 
     def edge(pred, succ):
         """precomputed phi moves for edge pred->succ"""
@@ -110,11 +123,13 @@ def decode_function(E, fn):
                 fr.prev = fr.bi; fr.bi = tb; fr.code = blocks[tb]; fr.ip = 0
         return j
 
+    fc.dbg = [None] * len(labels)
     for bi, lab in enumerate(labels):
-        code = []
-        for toks in bodies[bi]:
+        code = []; dbg = []
+        for j_, toks in enumerate(bodies[bi]):
             code.append(decode_inst(E, m, fc, toks, bi, slot, operand, lidx, mk_jump, zero_of))
-        blocks[bi] = code
+            dbg.append(dbg_ids.get((lab, body_idxs[bi][j_])))
+        blocks[bi] = code; fc.dbg[bi] = dbg
     fc.nregs = len(slots) + 1
     return fc
 
